@@ -484,7 +484,18 @@ def single_key_source_rules(prog, chk, pid):
     why = "session_key is not assigned exactly once in __init__"
     if ok:
         v = unsnap(sets[0].d["value"])
-        ok = v.op == "or" and len(v.args[0]) == 2 and _is_param(v.args[0][0], "session_key") and is_call_named(unsnap(v.args[0][1]), "random_bytes") and [cval(x) for x in unsnap(v.args[0][1]).args[1] if is_const(x)] == [16]
+        is_rnd = lambda t: is_call_named(unsnap(t), "random_bytes") and [cval(x) for x in unsnap(t).args[1] if is_const(x)] == [16] and len(unsnap(t).args[1]) == 1
+        ok = v.op == "or" and len(v.args[0]) == 2 and _is_param(v.args[0][0], "session_key") and is_rnd(v.args[0][1])
+        if not ok and v.op == "phi":
+            # the same choice spelled as a statement: `if not session_key:` / `if session_key is None:` session_key = random_bytes(16)
+            from bfsa.guard import rel as _rel
+
+            cond, a, b = v.args
+            for rnd, given, pol in ((a, b, True), (b, a, False)):
+                if is_rnd(rnd) and _is_param(unsnap(given), "session_key"):
+                    r_ = _rel(cond, pol)
+                    if r_[0] == "rel" and _is_param(unsnap(r_[2]), "session_key") and (r_[1] == "Falsy" or (r_[1] in ("Is", "Eq") and r_[3] is not None and is_const(unsnap(r_[3])) and cval(unsnap(r_[3])) is None)):
+                        ok = True
         why = "session key is %s, documented `given key or random_bytes(16)` evaluated per instance" % show(v, 4)
         dfl = fi.node.args.defaults
         ok = ok and all(prog.try_fold(fi.module, d, default="<nonconst>") != "<nonconst>" for d in dfl)
